@@ -69,6 +69,8 @@ def labels_for(name, n):
         # (two of them agree to six digits)
         return [0.5, 0.5000001, 2.5, 3.5][:n]
     if name == "e":
+        if n <= 2:
+            return [False, True][:n]       # a flag that was swept
         return ["u", "v", "w", "x"][:n]
     raise KeyError(name)
 
@@ -206,6 +208,13 @@ def mapping_kwargs(case):
     return kw
 
 
+def pick(ds, var, sel, dims):
+    """ds[var] at the labels sel[d] (by position: a list of booleans given to
+    .sel would be read as a mask)."""
+    return ds[var].isel({d: [ds[d].values.tolist().index(l) for l in sel[d]]
+                         for d in dims})
+
+
 def selected_labels(case, ds):
     """{dim: labels in play} after the explicit *_order selections."""
     out = {d: list(ds[d].values.tolist()) for d, _ in case["dims"]}
@@ -246,7 +255,7 @@ def check_lines(x, case, ds):
         xname = "xv"
         kw["xlink"] = "a"
     sel = selected_labels(case, ds)
-    if not np.any(np.isfinite(ds["y"].sel({d: sel[d] for d in dims}).values)):
+    if not np.any(np.isfinite(pick(ds, "y", sel, dims).values)):
         # the selection holds no data at all: nothing can be required
         return {"nontrivial": False, "classes": ["mode=lines", "empty"]}
     row, col = case["map"].get("row"), case["map"].get("col")
@@ -265,7 +274,7 @@ def check_lines(x, case, ds):
 
     # ---- reference: every combination of the remaining coordinates
     iter_dims = [d for d in dims if d not in agg]
-    Y = ds["y"].sel({d: sel[d] for d in dims}).transpose(*dims, "a")
+    Y = pick(ds, "y", sel, dims).transpose(*dims, "a")
     Yv = Y.values
     if agg:
         axes = tuple(dims.index(d) for d in agg)
@@ -279,7 +288,7 @@ def check_lines(x, case, ds):
         loc = {d: sel[d][i] for d, i in zip(iter_dims, combo)}
         if case.get("x_is_var"):
             d0 = dims[0]
-            xrow = ds["xv"].sel({d0: loc[d0]}).values if d0 in loc else None
+            xrow = pick(ds, "xv", {d0: [loc[d0]]}, [d0]).values[0] if d0 in loc else None
             if xrow is None:       # d0 aggregated away: x no longer defined
                 continue
         else:
@@ -402,7 +411,7 @@ def check_hist(x, case, ds):
     mapped = set(v for v in case["map"].values() if isinstance(v, str))
     bins = case.get("bins")
     sel0 = selected_labels(case, ds)
-    allv = ds["y"].sel({d: sel0[d] for d in dims}).values
+    allv = pick(ds, "y", sel0, dims).values
     if not np.any(np.isfinite(allv)):
         allv = ds["y"].values
     lo, hi = np.nanmin(allv), np.nanmax(allv)
@@ -423,7 +432,7 @@ def check_hist(x, case, ds):
     sel = selected_labels(case, ds)
     mdims = [d for d in dims if d in mapped]
     rest = [d for d in dims if d not in mapped] + ["a"]
-    Y = ds["y"].sel({d: sel[d] for d in dims}).transpose(*mdims, *rest)
+    Y = pick(ds, "y", sel, dims).transpose(*mdims, *rest)
     Yv = Y.values.reshape(tuple(len(sel[d]) for d in mdims) + (-1,))
     # labels that are entirely NaN are dropped from the domain
     drawn = [(panel_key(ax, row, col), ln) for ax in axs.flat
